@@ -39,8 +39,9 @@ func (verif18NoNet) Produce(*networkevent.Event) {}
 func (verif18NoNet) Close() error                { return nil }
 
 type verif18Archive struct {
-	t       *dispatch.Verif18Torrent
-	deleted int
+	t               *dispatch.Verif18Torrent
+	deleted         int
+	deletedComplete int // DeleteTorrent calls that hit a completed torrent
 }
 
 func (a *verif18Archive) Stat(string, core.Digest) (*storage.TorrentInfo, error) {
@@ -51,6 +52,9 @@ func (a *verif18Archive) GetTorrent(string, core.Digest) (storage.Torrent, error
 func (a *verif18Archive) DeleteTorrent(d core.Digest) error {
 	if d == a.t.Dig {
 		a.deleted++
+		if a.t.Bits.Count() == uint(a.t.N) {
+			a.deletedComplete++
+		}
 	}
 	return nil
 }
@@ -66,11 +70,19 @@ type verif18Sched struct {
 }
 
 func verif18NewSched(n int, complete bool) *verif18Sched {
+	return verif18NewSchedOpt(n, complete, true)
+}
+
+func verif18NewSchedOpt(n int, complete bool, sequential bool) *verif18Sched {
 	// The goroutines started by the code under test (request watcher, announce,
 	// completion notice into a loop stub that drops events) do not influence
 	// the decisions checked here: no preemption, fixed resume order.
 	verif.Option("max_preempt", 0)
 	verif.Option("sched_fixed", 1)
+	return verif18BuildSched(n, complete)
+}
+
+func verif18BuildSched(n int, complete bool) *verif18Sched {
 	e := &verif18Sched{clk: clock.NewMock()}
 	e.seederTTI = verif.Int64("seeder_tti_ns")
 	e.leecherTTI = verif.Int64("leecher_tti_ns")
@@ -169,7 +181,7 @@ func VerifIdleTickSeederIdle() {
 
 // VerifIdleTickFindingSeederServed: a completed torrent serves pieces at
 // symbolic times, then a tick: dropped only if nothing was served for the
-// seeder limit. Fires on the current tree (FINDINGS.md).
+// seeder limit. Regression check for FINDINGS.md (fixed upstream by 25099d2).
 func VerifIdleTickFindingSeederServed() {
 	e := verif18NewSched(2, true)
 	ctrl, err := e.st.addTorrent("ns", e.arch.t, false)
@@ -200,4 +212,32 @@ func VerifCancelDeletesPartialFile() {
 	removeTorrentEvent{e.arch.t.Dig, errc}.apply(e.st)
 	verif.Assert("cancelled-torrent-gone", !e.present())
 	verif.Assert("cancel-deletes-partial-file", e.arch.deleted >= 1)
+}
+
+// VerifIdleTickFindingCompletionRace: the last missing piece arrives on the
+// connection's goroutine WHILE the preemption tick drops the idle in-progress
+// torrent (interleavings at the storage calls and sync operations, one
+// preemption). Whatever the order, a torrent that is complete must not be
+// deleted from the archive. Fires on the current tree (FINDINGS.md, F2): the
+// window between removeTorrent's completeness check and DeleteTorrent.
+func VerifIdleTickFindingCompletionRace() {
+	verif.Option("max_preempt", 1)
+	e := verif18BuildSched(2, false)
+	// the race, not the limits, is the subject: fix them
+	verif.Assume(e.leecherTTI == int64(10*time.Second) && e.seederTTI == int64(10*time.Second))
+	ctrl, err := e.st.addTorrent("ns", e.arch.t, true)
+	verif.Assert("add-torrent", err == nil)
+	p, _ := dispatch.Verif18AddPeer(ctrl.dispatcher, 1, 2)
+	dispatch.Verif18Receive(ctrl.dispatcher, p, 0)
+	e.clk.Add(11 * time.Second)
+	done := make(chan struct{})
+	go func() {
+		dispatch.Verif18Receive(ctrl.dispatcher, p, 1)
+		close(done)
+	}()
+	preemptionTickEvent{}.apply(e.st)
+	<-done
+	verif.Cover("completed-before-drop-decision", e.present())
+	verif.Cover("dropped-before-completion", !e.present() && e.arch.deleted == 1)
+	verif.Assert("completed-blob-never-deleted", e.arch.deletedComplete == 0)
 }
